@@ -422,6 +422,23 @@ func (g G) planSSO(prop string) *Plan {
 			m.BodyFault, m.BodyOff = g.pick(fmt.Sprintf("pieces%d.k", i), "split", "split", "short"), g.intn(fmt.Sprintf("pieces%d.o", i), 4000)
 		}
 	}
+	if prop == "C06" && p.World.IDP.Metadata.URL != "" {
+		// the metadata document is published under an external URL: some requests are addressed to the endpoint's path below
+		// that URL's base (not an advertised location unless the endpoint itself is published there), usually after the
+		// document has been fetched through this instance
+		for i := range p.Steps {
+			if m := p.Steps[i].Msg; m != nil && m.Kind == "sso" && len(m.Tamper) == 0 && g.chance(fmt.Sprintf("mdbase%d", i), 30) {
+				m.DestMode = "metadata-base"
+			}
+		}
+		if g.chance("mdfirst", 70) {
+			md := &MsgSpec{Kind: "metadata", TLS: g.chance("mdfirst.tls", 35)}
+			if p.World.IDP.IssuerKind != "static" && p.World.IDP.IssuerKind != "" {
+				g.drawHost("mdfirst.host", &p.World.IDP, g.intn("mdfirst.hosti", 3), md)
+			}
+			p.Steps = append([]Step{{K: "send", Msg: md}, {K: "finish", Pick: 99}}, p.Steps...)
+		}
+	}
 	if prop == "C05" {
 		// replay: the untampered message is delivered (and answered) first, the tampered copy with the very same signature afterwards
 		var out []Step
